@@ -74,6 +74,38 @@ func sysEW(prop string, r *rng, emit func(string)) {
 						a := p.add(preA, ia)
 						p.ops = append(p.ops, fmt.Sprintf("bins:%s:%d:%d:%s:safe", op, a, 7, side))
 						emit(fmt.Sprintf("prog %s %s", dt, p.prog()))
+						if prop == "C07" {
+							// every option mode of the scalar forms and of the tensor-tensor form, with a
+							// row-major destination of the operand's logical shape
+							for _, mode := range []string{"unsafe", "reuse", "incr"} {
+								var q pb
+								preA, ia := source(r, la, sh, 2)
+								a := q.add(preA, ia)
+								m := mode
+								if mode != "unsafe" {
+									preR, ir := source(r, "rm", sh, 40)
+									m = fmt.Sprintf("%s.%d", mode, q.add(preR, ir))
+								}
+								q.ops = append(q.ops, fmt.Sprintf("bins:%s:%d:%d:%s:%s", op, a, 7, side, m))
+								emit(fmt.Sprintf("prog %s %s", dt, q.prog()))
+							}
+						}
+					}
+					if prop == "C07" {
+						for _, mode := range []string{"unsafe", "reuse", "incr"} {
+							var q pb
+							preA, ia := source(r, la, sh, 5)
+							a := q.add(preA, ia)
+							preB, ib := source(r, lays[(len(op)+len(la))%len(lays)], sh, 1)
+							b := q.add(preB, ib)
+							m := mode
+							if mode != "unsafe" {
+								preR, ir := source(r, "rm", sh, 40)
+								m = fmt.Sprintf("%s.%d", mode, q.add(preR, ir))
+							}
+							q.ops = append(q.ops, fmt.Sprintf("bin:%s:%d:%d:%s", op, a, b, m))
+							emit(fmt.Sprintf("prog %s %s", dt, q.prog()))
+						}
 					}
 				}
 			case "C11":
